@@ -1510,6 +1510,15 @@ impl<Front: SocketHandler + std::fmt::Debug, L: ListenerHandler + L7ListenerHand
                 .backend_streams
                 .get(&token)
                 .map_or_else(Vec::new, |ids| ids.to_owned());
+            if linked_ids.is_empty() {
+                // The timer of a backend connection that carries none of this
+                // session's streams (an idle h2c connection keeps its timer
+                // armed) says nothing about the session: other streams may be
+                // waiting for other backends, and an idle client connection
+                // is governed by the frontend timer. Closing here cut those
+                // streams without a 504, a RST_STREAM or a GOAWAY.
+                should_close = false;
+            }
             for stream_id in linked_ids {
                 // This stream is linked to the backend that timedout
                 if self.context.streams[stream_id].back.is_terminated()
